@@ -13,6 +13,10 @@ CFG = {
             "one to three times by calls that stay in flight, complete, are half-sent or time out themselves, then the sequence WAITS until every "
             "tombstone collection it can have scheduled has fired (3s constant of relay.go + slack; legitimate calls on other connections meanwhile) "
             "and probes: process alive, the attacked connection closed or answering a ping and a call with a fresh id, a fresh connection served; "
+            "a duplicate of an id still in flight must never be answered with a call res; race0 (once per run): the forced two-goroutine schedule of the "
+            "model witness C03_relay_reuse_unguarded_refuted on the real relay (child role relays: schedule controller, cancel relayed, 2-slot send queue; "
+            "both peers raw): cancel parked after its lookup, backend response frames fill the non-reading caller's queue (call failed, entombed), cancel "
+            "released (tombstone deleted early), id re-used and in flight, 3.7 s wait: the process must survive the stale collection; "
             "after each sequence: child alive, attacked connection closed or answering a ping, a legitimate call "
             "on a fresh connection answered. Client side: the child's outbound call answered with hostile frames. frag/fragparse: hostile "
             "fragment payloads through the real parser vs the model. peerfx: per-frame correspondence of the dispatch model (handle_frame): a real "
@@ -40,7 +44,8 @@ CFG = {
     ],
     "assumptions": ["relay id re-use: the theorem's schedules re-use an id while the relay still holds an item for it; a re-use after the item is gone "
                     "(call completed, tombstone collected) is a fresh call for the code and is covered by the engine only; a tombstone deleted early while its "
-                    "collection is still pending (needs two reader goroutines racing on one call) is outside both",
+                    "collection is still pending (two goroutines racing on one call) is outside the theorem (model witness C03_relay_reuse_unguarded_refuted) "
+                    "and covered by the forced schedule race0 of the engine (defect c03:tombstone-collection-deletes-live-item, fixed by d6df05f)",
                     "clause (c) - no goroutine spins or deadlocks, other connections keep being served - is a scheduler-level liveness property: "
                     "exercised by the liveness probes, not proved",
                     "a frame whose size field exceeds the bytes sent leaves the stream mid-frame: the same-connection probe is skipped for it"],
